@@ -299,6 +299,9 @@ Section Model.
                        else leb F (opp F tol) (grad A b d i))) (seq 0 (length b)).
   Definition solves_ok (A : mat) (b s : vec) (tol : T) : bool :=
     Nat.eqb (length s) (length b) && forallb (fun i => leb F (absT (grad A b s i)) tol) (seq 0 (length b)).
+  Definition mat_vec (A : mat) (x : vec) : vec := map (fun r => dot r x) A.
+  (* the objective  1/2 s^T (F+H) s - D^T s *)
+  Definition objective (A : mat) (b x : vec) : T := sub F (mul F half (dot x (mat_vec A x))) (dot b x).
   Definition hstack_dot (Bs : list mat) (s : vec) (npix : nat) : vec :=                      (* np.hstack(Bs) @ s *)
     map (fun i => dot (flat_map (fun B => row B i) Bs) s) (seq 0 npix).
 End Model.
